@@ -313,8 +313,11 @@ impl ParallelCacheState {
             // If it is marked as selfdestructed inside revm
             // we need to changed state to destroyed.
             if is_destructed {
+                // Publish the status before clearing the slots: a concurrent cache-filling read
+                // re-checks the status under the storage entry and must not resurrect a slot.
+                let transition = self.get_account_mut(address).selfdestruct();
                 self.storage.remove(&address);
-                return self.get_account_mut(address).selfdestruct();
+                return transition;
             }
 
             // Note: it can happen that created contract get selfdestructed in same block
@@ -327,9 +330,9 @@ impl ParallelCacheState {
             // is not possible because CREATE2 is introduced later.
             if is_created {
                 let info = account.info;
-                self.storage.remove(&address);
                 let (transition, changed_slots) =
                     self.get_account_mut(address).newly_created(info.clone(), changed_storage);
+                self.storage.remove(&address);
                 self.contracts.entry(info.code_hash).or_insert_with(|| info.code.clone().unwrap());
                 (Some(transition), Some(changed_slots))
             }
@@ -341,9 +344,10 @@ impl ParallelCacheState {
             // pre-existing empty accounts are unmarked as touched. Therefore, an account that
             // reaches the commit layer as touched, empty, and not created must be cleared.
             else if is_empty {
-                self.storage.remove(&address);
                 drop(changed_storage);
-                (self.get_account_mut(address).touch_empty_eip161(), None)
+                let transition = self.get_account_mut(address).touch_empty_eip161();
+                self.storage.remove(&address);
+                (transition, None)
             } else {
                 let (transition, changed_slots) =
                     self.get_account_mut(address).change(account.info, changed_storage);
@@ -565,27 +569,32 @@ impl<'a, DB: DatabaseRef> ParallelStateView<'a, DB> {
         }
         // As in revm State::storage_ref, the account is not guaranteed to be cached. In that case,
         // the backing database remains the source of truth.
-        let is_storage_known =
-            self.cache.accounts.get(&address).is_some_and(|account| {
-                account.status.is_storage_known() || account.account.is_none()
-            });
-
-        let value = if is_storage_known {
+        let value = if self.is_storage_known(address) {
             U256::ZERO
         } else {
             self.with_metrics(|| self.database.storage_ref(address, index))?
         };
-        let value = if let Some(slots) = self.cache.storage.get(&address) {
-            *slots.entry(index).or_insert(value).value()
-        } else {
-            match self.cache.storage.entry(address) {
-                Entry::Occupied(entry) => *entry.get().entry(index).or_insert(value).value(),
-                Entry::Vacant(entry) => {
-                    *entry.insert(Default::default()).entry(index).or_insert(value).value()
-                }
+        // Insert under the address entry and re-check the account there: ordered commit publishes
+        // a destroyed/created status before it clears the slots, so a value fetched before that
+        // commit is either dropped here or removed by the commit afterwards.
+        let value = match self.cache.storage.entry(address) {
+            Entry::Occupied(entry) => {
+                let value = if self.is_storage_known(address) { U256::ZERO } else { value };
+                *entry.get().entry(index).or_insert(value).value()
+            }
+            Entry::Vacant(entry) => {
+                let value = if self.is_storage_known(address) { U256::ZERO } else { value };
+                *entry.insert(Default::default()).entry(index).or_insert(value).value()
             }
         };
         Ok(value)
+    }
+
+    fn is_storage_known(self, address: Address) -> bool {
+        self.cache
+            .accounts
+            .get(&address)
+            .is_some_and(|account| account.status.is_storage_known() || account.account.is_none())
     }
 
     fn db_block_hash(self, number: u64) -> Result<B256, DB::Error> {
